@@ -185,7 +185,7 @@ def finish(unit, ex, solver, ob, t0, extra=None, cross=True):
                 paths=ex.stats["paths"], forks=ex.stats["forks"], samples=ob.samples[:4],
                 callees=sorted(ex.calls_seen))
     if cross:
-        agree, detail, dt = solver.cross_check()
+        agree, detail, dt = solver.cross_check(cap_s=int(os.environ.get("VERIF_CVC5_CAP", "900" if os.environ.get("VERIF_TIER_RUNNING") != "thorough" else "5400")))
         unit["cross_check"] = "cvc5: %s (%.1fs)" % (detail, dt)
         if agree is not True:
             unit["status"] = "inconclusive"
@@ -1466,11 +1466,18 @@ def c11_quick5(ctx, prop):
     return run_chmod_mode(ctx, prop, 5, lmin=5, tag="c11_mode_l5")
 
 
+@job("c11_mode_l6", ["C11", "C12"], "thorough",
+     functions=["sys::fs::chmod::mode (real MIR)", "sys::fs::chmod::_pop (real MIR, inlined)"],
+     bounds="every string of exactly 6 chars (any Unicode scalar), every entry, octal any u32")
+def c11_l6(ctx, prop):
+    return run_chmod_mode(ctx, prop, 6, lmin=6, tag="c11_mode_l6")
+
+
 @job("c11_mode_l7", ["C11", "C12"], "thorough",
      functions=["sys::fs::chmod::mode (real MIR)", "sys::fs::chmod::_pop (real MIR, inlined)"],
-     bounds="every string of 6..=7 chars (any Unicode scalar), every entry, octal any u32")
+     bounds="every string of exactly 7 chars (any Unicode scalar), every entry, octal any u32")
 def c11_l7(ctx, prop):
-    return run_chmod_mode(ctx, prop, 7, lmin=6, tag="c11_mode_l7")
+    return run_chmod_mode(ctx, prop, 7, lmin=7, tag="c11_mode_l7")
 
 
 T, G, O, P = "dfa", "ugoa", "-+=", "rwx"
@@ -1510,11 +1517,6 @@ def c11_multi(ctx, prop):
     return run_chmod_mode(ctx, prop, 7, templates=[[T, ":", G, G, O, P, P]], tag="c11_multi")
 
 
-@job("c11_mode_l9", ["C11", "C12"], "thorough",
-     functions=["sys::fs::chmod::mode (real MIR)", "sys::fs::chmod::_pop (real MIR, inlined)"],
-     bounds="every string of 8..=9 chars (any Unicode scalar), every entry, octal any u32")
-def c11_l9(ctx, prop):
-    return run_chmod_mode(ctx, prop, 9, lmin=8, tag="c11_mode_l9")
 
 
 # ------------------------------------------------------------------------------------------------
@@ -3487,3 +3489,167 @@ _mk_mem_single("c03_mem_move", ["move_p"], 3, 2, "quick")
 _mk_mem_single("c03_mem_create4", ["mkfile", "mkdir_p"], 4, 2, "thorough")
 _mk_mem_single("c03_mem_write4", ["write_all", "append_all", "set_cwd", "remove"], 4, 2, "thorough")
 _mk_mem_single("c03_mem_two3", ["symlink", "move_p"], 3, 3, "thorough")
+
+
+# ------------------------------------------------------------------------------------------------
+# C06: content round trips through Memfs (write_all/append_all/line helpers/read_all/read_lines)
+# ------------------------------------------------------------------------------------------------
+def run_roundtrip(ctx, prop, max_ops, tag="c06_roundtrip"):
+    import itertools
+    from .mirsym.values import bv_bin
+    t0 = time.time()
+    run = MemRun(ctx, tag)
+    ex, ob, solver = run.ex, run.ob, run.solver
+    unit = dict(status="pass", failures=[])
+    NL = BV(32, False, 10)
+    op_alphabet = ["WA0", "WA1", "WA2", "AA0", "AA1", "AA2", "AL", "WL", "ALS"]
+    shapes = []
+    for n in range(1, max_ops + 1):
+        shapes += list(itertools.product(op_alphabet, repeat=n))
+    for target, initial in (("/b", "yz"), ("/n", None)):
+        for shape in shapes:
+            sid = "%s_%s_%s" % (tag, target[1:], "".join(shape))
+            calls, cons, model, groups = [], [], [BV(32, False, ord(c)) for c in (initial or "")], {}
+            defined = initial is not None
+            for oi, op in enumerate(shape):
+                def fresh(n, no_nl, nonempty=False, oi=oi):
+                    c, cc = sym_text(solver, "%s_%d_%d" % (sid, oi, len(groups)), n, ascii_only=True)
+                    cons.extend(cc)
+                    cons.extend("(not (= %s #x00000000))" % x.v for x in c)
+                    if no_nl:
+                        cons.extend("(not (= %s #x0000000a))" % x.v for x in c)
+                        cons.extend("(not (= %s #x0000000d))" % x.v for x in c)
+                    groups["op%d_%d" % (oi, len(groups))] = c
+                    return c
+                if op.startswith("WA"):
+                    d = fresh(int(op[2]), False)
+                    calls.append(("write_all", [BoxRef(M.SStr(T_(target))), BoxRef(M.SStr(d))]))
+                    model, defined = list(d), True
+                elif op.startswith("AA"):
+                    d = fresh(int(op[2]), False)
+                    calls.append(("append_all", [BoxRef(M.SStr(T_(target))), BoxRef(M.SStr(d))]))
+                    model, defined = model + list(d), True
+                elif op == "AL":
+                    l = fresh(1, True)
+                    calls.append(("append_line", [BoxRef(M.SStr(T_(target))), BoxRef(M.SStr(l))]))
+                    model, defined = model + list(l) + [NL], True
+                elif op == "WL":
+                    l1, l2 = fresh(1, True), fresh(2, True)
+                    calls.append(("write_lines", [BoxRef(M.SStr(T_(target))), BoxRef(M.VecM([BoxRef(M.SStr(l1)), BoxRef(M.SStr(l2))]))]))
+                    model, defined = list(l1) + [NL] + list(l2) + [NL], True
+                else:
+                    l1, l2 = fresh(1, True), fresh(1, True)
+                    calls.append(("append_lines", [BoxRef(M.SStr(T_(target))), BoxRef(M.VecM([BoxRef(M.SStr(l1)), BoxRef(M.SStr(l2))]))]))
+                    model, defined = model + list(l1) + [NL] + list(l2) + [NL], True
+            calls.append(("read_all", [BoxRef(M.SStr(T_(target)))]))
+            calls.append(("read_lines", [BoxRef(M.SStr(T_(target)))]))
+            calls.append(("read_all", [BoxRef(M.SStr(T_("/a/b")))]))
+
+            def on_done(st, results, inner, i, shape=shape, model=model, groups=groups, target=target, ncalls=len(calls)):
+                cf = lambda extra: text_model(ex, st, groups, extra)
+                bad = [r for r in results if r[0] in ("panic", "bound")]
+                if bad:
+                    ob.total += 1
+                    ob.failures.append(dict(kind="panic" if bad[0][0] == "panic" else "bound", where="Memfs", cex=cf([]), shape=shape, target=target,
+                                            desc="C12: content operation panics/loops: %s" % bad[0][1]))
+                    return
+                for k, (kind, rv) in enumerate(results[:len(shape)]):
+                    ob.prove(ex, st, "C06: %s on %s succeeds (%s)" % (shape[k], target, "".join(shape)), B(isinstance(rv, Adt) and rv.variant == 0), cf) or \
+                        ob.failures[-1].update(shape=shape, target=target, where="Memfs")
+                ra, rl, other = results[-3][1], results[-2][1], results[-1][1]
+                if not (isinstance(ra, Adt) and ra.variant == 0):
+                    ob.total += 1
+                    ob.failures.append(dict(kind="functional", where="Memfs::read_all", cex=cf([]), shape=shape, target=target,
+                                            desc="C06: read_all fails after %s" % "".join(shape)))
+                    return
+                ob.prove(ex, st, "C06: read_all returns exactly what the byte-vector model holds after %s on %s" % ("".join(shape), target),
+                         text_eq(ra.fields[0].chars, model), cf) or ob.failures[-1].update(shape=shape, target=target, where="Memfs")
+                # lines of the model
+                lines, cur = [], []
+                for c in model:
+                    if ex.decide(st, bv_bin("Eq", c, NL)):
+                        if cur and ex.decide(st, bv_bin("Eq", cur[-1], BV(32, False, 13))):
+                            cur = cur[:-1]
+                        lines.append(cur)
+                        cur = []
+                    else:
+                        cur.append(c)
+                if cur:
+                    lines.append(cur)
+                if isinstance(rl, Adt) and rl.variant == 0:
+                    got = [M.sstr_of(ex, st, x).chars for x in M._obj(ex, st, rl.fields[0]).items]
+                    same = B(len(got) == len(lines)) if len(got) != len(lines) else b_and(*[text_eq(a, b) for a, b in zip(got, lines)])
+                    ob.prove(ex, st, "C06: read_lines agrees with the model's lines after %s" % "".join(shape), same, cf) or \
+                        ob.failures[-1].update(shape=shape, target=target, where="Memfs")
+                else:
+                    ob.total += 1
+                    ob.failures.append(dict(kind="functional", where="Memfs::read_lines", cex=cf([]), shape=shape, target=target,
+                                            desc="C06: read_lines fails after %s" % "".join(shape)))
+                ob.prove(ex, st, "C06: writing one path never changes another file",
+                         B(isinstance(other, Adt) and other.variant == 0) if not (isinstance(other, Adt) and other.variant == 0) else
+                         text_eq(other.fields[0].chars, T_("x")), cf) or ob.failures[-1].update(shape=shape, target=target, where="Memfs")
+                if len(ob.samples) < 4 and len(shape) == max_ops:
+                    m = cf([])
+                    if m:
+                        ob.samples.append(dict(ops="".join(shape), target=target, data=m))
+
+            run.explore(TREE1, "/", calls, cons, on_done)
+    seen = set()
+    for f in ob.failures:
+        if f["kind"] == "bound" or f["cex"] is None:
+            unit["status"], unit["why"] = "inconclusive", f["desc"]
+            continue
+        key = (f.get("shape"), f.get("target"))
+        if key in seen or len(seen) >= 4:
+            continue
+        seen.add(key)
+        data = [v for k, v in sorted(f["cex"].items(), key=lambda kv: (int(kv[0][2:].split("_")[0]), int(kv[0].split("_")[1])))]
+        body, model, di = "", (b"yz".decode() if f["target"] == "/b" else ""), 0
+        for op in f["shape"]:
+            if op.startswith("WA"):
+                d = data[di]; di += 1
+                body += '    v.write_all(%s, %s).unwrap();\n' % (rs_str(f["target"]), rs_str(d)); model = d
+            elif op.startswith("AA"):
+                d = data[di]; di += 1
+                body += '    v.append_all(%s, %s).unwrap();\n' % (rs_str(f["target"]), rs_str(d)); model += d
+            elif op == "AL":
+                d = data[di]; di += 1
+                body += '    v.append_line(%s, %s).unwrap();\n' % (rs_str(f["target"]), rs_str(d)); model += d + "\n"
+            elif op == "WL":
+                a, b = data[di], data[di + 1]; di += 2
+                body += '    v.write_lines(%s, &[%s, %s]).unwrap();\n' % (rs_str(f["target"]), rs_str(a), rs_str(b)); model = a + "\n" + b + "\n"
+            else:
+                a, b = data[di], data[di + 1]; di += 2
+                body += '    v.append_lines(%s, &[%s, %s]).unwrap();\n' % (rs_str(f["target"]), rs_str(a), rs_str(b)); model += a + "\n" + b + "\n"
+        src = MEM_REPLAY_PRELUDE + '''
+#[test]
+fn replay_roundtrip() {
+    // %s
+    let v = fixture();
+%s    assert_eq!(v.read_all(%s).unwrap(), %s, "C06: read_all");
+    let lines: Vec<String> = %s.lines().map(|x| x.to_string()).collect();
+    assert_eq!(v.read_lines(%s).unwrap(), lines, "C06: read_lines");
+    assert_eq!(v.read_all("/a/b").unwrap(), "x", "C06: another file changed");
+}
+''' % (f["desc"], body, rs_str(f["target"]), rs_str(model), rs_str(model), rs_str(f["target"]))
+        r = native_test(src, ctx.logdir, "%s_%d" % (tag, len(seen)))
+        reproduced = r["ran"] and r["failed"] > 0
+        rec = dict(kind=f["kind"], desc='"%s" data=%r' % (f["desc"], data), where=f.get("where", ""), reproduced=reproduced, replay_outcome=r["out"][-400:])
+        if reproduced:
+            rec["replay"] = save_replay(prop, tag, src, f["desc"], dict(failed=r["failed"]))
+        unit["failures"].append(rec)
+        unit["status"] = "violation"
+    return finish(unit, ex, solver, ob, t0, dict(models_used="Memfs executed from MIR; byte-vector reference model; BufRead::lines modelled over the handle's bytes"))
+
+
+@job("c06_roundtrip_k2", ["C06", "C12"], "quick",
+     functions=["Memfs::{write_all,append_all,append_line,write_lines,append_lines,read_all,read_lines,write,append,read} and MemfsFile::{write,flush,sync,drop,clone,seek} (real MIR)"],
+     bounds="every sequence of 1..=2 operations from {write_all/append_all of 0,1,2 ASCII bytes, append_line, write_lines, append_lines with non-empty 1-2 char lines} on an existing file and on a new file; data symbolic")
+def c06_quick(ctx, prop):
+    return run_roundtrip(ctx, prop, 2)
+
+
+@job("c06_roundtrip_k3", ["C06", "C12"], "thorough",
+     functions=["same as c06_roundtrip_k2"], bounds="every sequence of 3 operations (9^3 shapes x 2 targets)")
+def c06_thorough(ctx, prop):
+    return run_roundtrip(ctx, prop, 3, tag="c06_roundtrip_k3")
